@@ -10,6 +10,8 @@ TRUSTED = ["model side = executable defining sums PcModel/Formulas.lean; each is
            "totals are proved = pi(x) for all x and admissible parameters (PcProofs/Formulas*.lean, executable_dr_total / "
            "executable_gourdon_total); the tie of the C++ terms to them is this sampled correspondence"]
 ASSUMPTIONS = ["explicit parameters are restricted to what the tuning options can produce"]
+# wp-s1phi0: PcProps/C08Leaf.lean (loop mirrors of S1 / Phi0 / Sigma / S2_trivial proved equal to their definitions)
+EXTRA_MODULES = ["C08Leaf"]
 
 
 def term_ops(x, y, z, k, yd, c, w, t):
@@ -93,7 +95,8 @@ def streams(ctx):
     st2 = Stream("identities_large_x", ops2, oracle=True, judge=judge,
                  model_ops=lambda ops, impl: ["# " + o for o in ops], timeout=1500,
                  classify=lambda op, r: op.split()[0])
-    return [st1, st2, cli_stream(ctx)]
+    from . import c08leaf
+    return [st1, st2, cli_stream(ctx)] + c08leaf.streams(ctx)
 
 
 def cli_stream(ctx):
